@@ -741,7 +741,7 @@ func (m *c16) ops() []*c16Op {
 		inputs: func(r *core.Rand) [][]byte {
 			N := rk[0].N
 			var msg []byte
-			switch r.IntN(5) {
+			switch hostileDERIndex % 5 { // the repetition counter: every kind in turn
 			case 0:
 				msg = bytes.Repeat([]byte{0xff}, 256)
 			case 1:
@@ -843,7 +843,7 @@ func (m *c16) ops() []*c16Op {
 			other := type3.NewRateLimitedIssuer(rk[2])
 			other.AddOrigin("origin.example")
 			var b []byte
-			switch r.IntN(3) {
+			switch hostileDERIndex % 3 { // the repetition counter: every kind in every run
 			case 0:
 				st, err := cl3.CreateTokenRequest(r.Bytes(8), r.Bytes(32), ScalarBytes(r, N, 48), other.TokenKeyID(), other.TokenKey(), "origin.example", other.NameKey())
 				must(err)
@@ -928,7 +928,7 @@ func tokenKeyTextForms(der []byte) [][]byte {
 func runC16(c *core.Ctx) {
 	m := &c16{c: c, curve: elliptic.P384()}
 	ops := m.ops()
-	reps := c.Pick(4, 200)
+	reps := c.Pick(6, 200)
 	for _, op := range ops {
 		n := reps
 		if op.name == "util.UnmarshalTokenKey(hostile DER)" {
